@@ -98,6 +98,7 @@ struct TestFn
     std::size_t dims = 1;
     std::vector<DistSpec<T>> dists;
     std::shared_ptr<std::size_t> counter = std::make_shared<std::size_t>(0); // calls so far (families that depend on it)
+    T scale = T(1); // overall magnitude of the integrand (families 0-4)
 
     static std::vector<T> const& coords(hep::multi_channel_point<T> const& p) { return p.coordinates(); }
     static std::vector<T> const& coords(hep::mc_point<T> const& p) { return p.point(); }
@@ -108,11 +109,11 @@ struct TestFn
         T const xl = x[dims - 1];
         switch (family)
         {
-        case 0: { T v = T(1); for (std::size_t j = 0; j != dims; ++j) { v *= T(0.5) + x[j]; } return v; }
-        case 1: return (x0 < T(0.3)) ? T(0) : T(1) + xl;                       // zero region
-        case 2: return x0 - T(0.5) + T(0.25) * xl;                              // sign changing
-        case 3: return T(2);                                                    // constant
-        case 4: return T(1) / (T(0.01) + (x0 - T(0.4)) * (x0 - T(0.4)));       // peaked
+        case 0: { T v = scale; for (std::size_t j = 0; j != dims; ++j) { v *= T(0.5) + x[j]; } return v; }
+        case 1: return (x0 < T(0.3)) ? T(0) : scale * (T(1) + xl);             // zero region
+        case 2: return scale * (x0 - T(0.5) + T(0.25) * xl);                    // sign changing
+        case 3: return scale * T(2);                                            // constant
+        case 4: return scale / (T(0.01) + (x0 - T(0.4)) * (x0 - T(0.4)));      // peaked
         case 6: return std::numeric_limits<T>::quiet_NaN();                     // non-finite everywhere
         case 7: return ((*counter)++ % 2 == 0) ? T(1) : T(-1);                  // alternating: exact zero mean for even N (weight 1)
         case 8: return ((*counter)++ % 3 == 0) ? std::numeric_limits<T>::infinity() : T(0); // zero or infinite
@@ -161,7 +162,7 @@ struct RunCfg
     std::string describe() const
     {
         std::ostringstream o;
-        o << (kind == PLAIN ? "PLAIN" : kind == VEGAS ? "VEGAS" : "MULTI") << " d=" << dims << " f=" << fn.family << ' ' << vf::describe(fn.dists)
+        o << (kind == PLAIN ? "PLAIN" : kind == VEGAS ? "VEGAS" : "MULTI") << " d=" << dims << " f=" << fn.family << (fn.scale != T(1) ? " scale=" + show(fn.scale) : std::string()) << ' ' << vf::describe(fn.dists)
           << " seed=" << seed;
         if (kind == VEGAS) { o << " bins=" << bins << " alpha=" << show(alpha) << (user_grid ? " usergrid=" + show(grid, 12) : std::string(" defaultgrid")); }
         if (kind == MULTI)
@@ -207,7 +208,7 @@ inline RunCfg<T> gen_cfg(Tape& t, int force_kind = -1)
         std::size_t const channels = 1 + t.pick(5);
         c.fam = gen_pwc<T>(t, 3, channels, 4);
         c.dims = c.fam.dims;
-        switch (t.pick(3)) { case 0: c.beta = T(0.25); break; case 1: c.beta = T(1); break; default: c.beta = static_cast<T>(0.05 + 0.9 * t.unit()); break; }
+        switch (t.pick(4)) { case 0: c.beta = T(0.25); break; case 1: c.beta = T(1); break; case 2: c.beta = T(0); break; default: c.beta = static_cast<T>(0.05 + 0.9 * t.unit()); break; }
         switch (t.pick(3)) { case 0: c.minw = T(0); break; case 1: c.minw = T(0.5) / T(channels); break; default: c.minw = static_cast<T>(t.unit() * 0.9 / channels); break; }
         c.user_weights = t.flag();
         if (c.user_weights)
@@ -224,6 +225,7 @@ template <typename T, typename E>
 struct Plain
 {
     using Chk = hep::plain_chkpt_with_rng<E, T>;
+    using Base = hep::plain_chkpt<T>;
     static constexpr int kind = PLAIN;
 
     static Chk fresh(RunCfg<T> const& c) { return hep::make_plain_chkpt<T, E>(E(c.seed)); }
@@ -246,6 +248,7 @@ template <typename T, typename E>
 struct Vegas
 {
     using Chk = hep::vegas_chkpt_with_rng<E, T>;
+    using Base = hep::vegas_chkpt<T>;
     static constexpr int kind = VEGAS;
 
     static Chk fresh(RunCfg<T> const& c)
@@ -282,6 +285,7 @@ template <typename T, typename E>
 struct Multi
 {
     using Chk = hep::multi_channel_chkpt_with_rng<E, T>;
+    using Base = hep::multi_channel_chkpt<T>;
     static constexpr int kind = MULTI;
 
     static Chk fresh(RunCfg<T> const& c)
